@@ -1224,6 +1224,19 @@ pub fn gen_cfg(t: &mut Tape) -> (GSpec, Vec<&'static str>) {
             );
             root = Some(s);
         }
+        5 if nterms >= 4 && t.chance(110) => {
+            // long nullable tail: TQ = TA TB TC TD with every member nullable, used in front
+            // of a terminal: the lookahead of each member is FIRST of a tail of >= 3 nullable
+            // symbols plus the inherited lookahead
+            tags.push("template:long-nullable-tail");
+            let an = add(&mut spec, "TA", vec![vec![], vec![tm(0)]]);
+            let bn = add(&mut spec, "TB", vec![vec![], vec![tm(1)]]);
+            let cn = add(&mut spec, "TC", vec![vec![], vec![tm(2)]]);
+            let dn = add(&mut spec, "TD", vec![vec![], vec![tm(3), SymKind::N(an)]]);
+            let q = add(&mut spec, "TQ", vec![vec![SymKind::N(an), SymKind::N(bn), SymKind::N(cn), SymKind::N(dn)]]);
+            let s = add(&mut spec, "TS", vec![vec![SymKind::N(q), tm(4)], vec![tm(4), SymKind::N(q), tm(t.below(nterms))]]);
+            root = Some(s);
+        }
         5 => {
             // nullable chain: S = A B c; A = eps | a; B = eps | b
             tags.push("template:nullable-chain");
